@@ -295,8 +295,10 @@ type zframe struct {
 type zfield struct {
 	Where string // structural name, e.g. "typedef.record.nfields"
 	Sp    span   // location of a uvarint or a single byte
-	Kind  string // "uvarint" | "byte" | "typevalue"
+	Kind  string // "uvarint" | "byte" | "typevalue" | "bound"
 	Val   uint64
+	Bound int // Kind "bound": the first invalid value of this one-byte field
+	Step  int // ... and the distance between consecutive values
 }
 
 func uvarintAt(b []byte, off int) (uint64, int, bool) {
@@ -314,6 +316,7 @@ type wtype struct {
 	kind  string // prim|record|array|set|map|union|enum|error|named
 	id    int
 	elems []int // child type ids
+	nsym  int   // enum: number of symbols
 }
 
 type zwalker struct {
@@ -474,6 +477,7 @@ func (w *zwalker) walkTypes(f *zframe) error {
 			if err != nil {
 				return err
 			}
+			t.nsym = int(n)
 			for i := 0; i < int(n); i++ {
 				if err := w.str(f, &off, "typedef.enum.symbol"); err != nil {
 					return err
@@ -576,6 +580,8 @@ func (w *zwalker) walkBody(f *zframe, off *int, end int, id int, where string, d
 		sel := 0
 		if stag > 1 {
 			f.Fields = append(f.Fields, zfield{Where: "value.union.selector", Sp: span{selOff, 1}, Kind: "byte", Val: uint64(w.b[selOff])})
+			// the bound of the selector is the number of members (zigzag encoding: 2*n)
+			f.Fields = append(f.Fields, zfield{Where: "value.union.selector", Sp: span{selOff, 1}, Kind: "bound", Val: uint64(w.b[selOff]), Bound: 2 * len(t.elems), Step: 2})
 			sel = int(w.b[selOff]) >> 1 // zigzag, small non-negative
 		}
 		*off = selOff + int(stag) - 1
@@ -585,7 +591,11 @@ func (w *zwalker) walkBody(f *zframe, off *int, end int, id int, where string, d
 			}
 		}
 	case "enum":
-		f.Fields = append(f.Fields, zfield{Where: "value.enum.selector", Sp: span{*off, 1}, Kind: "byte", Val: uint64(w.b[*off])})
+		if blen > 0 {
+			f.Fields = append(f.Fields, zfield{Where: "value.enum.selector", Sp: span{*off, 1}, Kind: "byte", Val: uint64(w.b[*off])})
+			// the bound of the selector is the number of symbols
+			f.Fields = append(f.Fields, zfield{Where: "value.enum.selector", Sp: span{*off, 1}, Kind: "bound", Val: uint64(w.b[*off]), Bound: t.nsym, Step: 1})
+		}
 	}
 	*off = bend
 	return nil
@@ -825,6 +835,15 @@ func zngMutants(b []byte, readMax int, full bool) ([]Mutant, error) {
 					if byte(fl.Val) != x {
 						add(fmt.Sprintf("byte.%#x", x), f.Kind+"."+fl.Where, "", rebuildFrame(b, f, splice(payload, rel, []byte{x})))
 					}
+				}
+			case "bound":
+				// bound-1, bound, bound+1 of a selector
+				for _, d := range []int{-1, 0, 1} {
+					x := fl.Bound + d*fl.Step
+					if x < 0 || x > 0xff || uint64(x) == fl.Val {
+						continue
+					}
+					add(fmt.Sprintf("bound%+d", d), f.Kind+"."+fl.Where, fmt.Sprint(x), rebuildFrame(b, f, splice(payload, rel, []byte{byte(x)})))
 				}
 			case "typevalue":
 				for o := 0; o < rel.Len; o++ {
